@@ -377,6 +377,11 @@ class ZIPHandler(BaseHandler):
         if not self.config.getboolean("handlers.ZIP.ZIPHandler", "enabled"):
             return False
 
+        if not self.vfs.isreal():
+            # zipfile.is_zipfile() and the cache need a path on the real
+            # file system: an archive inside an archive is just a file.
+            return False
+
         pattern = re.compile(self.config.get("handlers.ZIP.ZIPHandler", "pattern"))
 
         basename = self.selector
